@@ -52,7 +52,8 @@ static MV check_mov_rule(const LineCase &c) {
   if (got != val) return bad("immediate value", hexs + " -> " + x86::to_string(g));
   bool narrowable = val <= 0xffffffffULL;
   int mode = combo_opts(c.combo).mov;
-  bool full16 = im.hex && !im.neg && im.pad == 16;
+  // "written with all 16 digits": sixteen hexadecimal digits behind the 0x, with or without a sign in front
+  uint64_t mag = im.neg ? (uint64_t)(0 - im.v) : im.v; bool full16 = im.hex && std::max(im.pad, ndigits(mag, true)) == 16;
   bool want_narrow = mode == 1 ? narrowable : mode == 0 ? false : (narrowable && !full16);
   if (want_narrow && dw != 32) return bad("not-narrowed", hexs + " -> " + x86::to_string(g) + " ; the documented rule narrows to the 32-bit destination");
   if (!want_narrow && dw != 64) return bad("narrowed", hexs + " -> " + x86::to_string(g) + " ; the documented rule keeps the 64-bit destination");
@@ -110,6 +111,9 @@ void prop_c11(hz::Ctx &ctx) {
     for (auto &s : sps) if (s.hex && !s.neg) for (int pad = 1; pad <= 16; pad++) { ImmSp p = s; p.pad = pad; char b[40]; snprintf(b, sizeof b, "%llx", (unsigned long long)s.v); if ((int)strlen(b) <= pad && (pad == 15 || pad == 16 || pad == 8 || pad == 9 || rng.below(4) == 0)) more.push_back(p); }
     // decimal literals of 16 and more characters: only a hexadecimal one suppresses narrowing
     for (auto &s : sps) if (!s.hex && s.pad == 0 && (s.v <= 0xffffffffULL || rng.below(4) == 0)) for (int pad : {15, 16, 17, 18, 19, 20, 24}) if (pad >= 17 && pad <= 18 ? true : rng.below(3) == 0) { ImmSp p = s; p.pad = pad; uint64_t mag = s.neg ? (uint64_t)(0 - s.v) : s.v; if (ndigits(mag, false) < pad) more.push_back(p); }
+    // signed 16-digit literals whose value is small again (-0xffffffffffffffff is 1), and minus zero
+    for (uint64_t v : {0ULL, 1ULL, 2ULL, 0x7fULL, 0x80ULL, 0xffffULL, 0x7fffffffULL, 0x80000000ULL, 0xffffffffULL, 0x100000000ULL}) { more.push_back({v, true, true, v == 0 ? 16 : 0}); if (v == 0) { more.push_back({v, true, true, 0}); more.push_back({v, true, false, 0}); more.push_back({v, true, true, 15}); } }
+    for (auto &s : sps) if (s.hex && s.neg && s.pad == 0 && rng.below(3) == 0) { ImmSp p = s; p.pad = 16; more.push_back(p); p.pad = 15; more.push_back(p); }
     sps.insert(sps.end(), more.begin(), more.end());
     auto ref = form_refs([](const Form &f) { return std::string(f.pat) == "R,IMOV"; });
     FormRef r64; for (auto &r : ref) if (r.size == 64) r64 = r;
@@ -123,8 +127,8 @@ void prop_c11(hz::Ctx &ctx) {
         std::string id = "A|" + serialize(c);
         if (!ctx.begin(id, text(c.it))) continue;
         ctx.cls("group:mov-r64-imm"); ctx.cls(std::string("movmode:") + (mode == 0 ? "STRICT" : mode == 1 ? "NASM" : "SMART"));
-        bool full16 = sps[i].hex && !sps[i].neg && sps[i].pad == 16;
-        if (sps[i].v <= 0xffffffffULL) ctx.cls("mov:narrowable"); if (full16) ctx.cls("mov:16-digit"); if (!sps[i].hex) ctx.cls("mov:decimal"); if (!sps[i].hex && sps[i].pad >= 16) ctx.cls("mov:decimal-16-and-more-characters");
+        uint64_t mag16 = sps[i].neg ? (uint64_t)(0 - sps[i].v) : sps[i].v; bool full16 = sps[i].hex && std::max(sps[i].pad, ndigits(mag16, true)) == 16;
+        if (sps[i].v <= 0xffffffffULL) ctx.cls("mov:narrowable"); if (full16) ctx.cls("mov:16-digit"); if (full16 && sps[i].neg) ctx.cls("mov:16-digit-signed"); if (!sps[i].hex) ctx.cls("mov:decimal"); if (!sps[i].hex && sps[i].pad >= 16) ctx.cls("mov:decimal-16-and-more-characters");
         if (sps[i].v <= 0xffffffffULL || full16) ctx.nontrivial(id);
         MV v = check_mov_rule(c);
         if (ctx.want_sample()) ctx.put_sample(text(c.it) + " [" + combo_name(c.combo) + "] -> " + (v.ok ? "as documented" : v.symptom));
